@@ -22,7 +22,7 @@ type env struct {
 	gen *config.PrometheusGenerator
 }
 
-var envs [3]env // plain, locked, plain + a rule{} block that names every check in `enable`
+var envs [4]env // plain, locked, plain + a rule{} block that names every check in `enable`, unlocked block then the same block locked
 
 func setup(string) {
 	for i, locked := range []bool{false, true} {
@@ -43,6 +43,13 @@ func setup(string) {
 		panic(err)
 	}
 	envs[2] = env{cfg, pipeline.Generator(cfg)}
+	// the same checks twice: from an unlocked block first, then from a locked one. A rule-level comment silences
+	// the unlocked copy only.
+	cfg, err = pipeline.LoadConfig(fixtures.OfflineConfig(false) + fixtures.OfflineConfig(true))
+	if err != nil {
+		panic(err)
+	}
+	envs[3] = env{cfg, pipeline.Generator(cfg)}
 }
 
 type item struct {
@@ -98,7 +105,7 @@ var forms = []string{"disable N", "disable check.String()", "snooze future N", "
 const future, past = "2099-11-28T10:24:18Z", "2000-11-28T10:24:18Z"
 
 func body(c *explore.Chooser) *explore.Case {
-	locked := c.Free(3, "config")
+	locked := c.Free(4, "config")
 	e := envs[locked]
 	nrules := 1 + c.Free(2, "nrules")
 	a := c.Free(len(fixtures.Palette), "ruleA")
@@ -293,7 +300,7 @@ func body(c *explore.Chooser) *explore.Case {
 	}
 	text := strings.Join(out, "\n") + "\n"
 	after, herr := run(e, text)
-	input := map[string]any{"file": text, "target_rule": target.rule, "reporter": target.reporter, "comment": comment, "placement": placement, "locked_config": locked == 1, "rule_enable_config": locked == 2, "prelude": preludeName}
+	input := map[string]any{"file": text, "target_rule": target.rule, "reporter": target.reporter, "comment": comment, "placement": placement, "locked_config": locked == 1, "rule_enable_config": locked == 2, "unlocked_then_locked_config": locked == 3, "prelude": preludeName}
 	cs := &explore.Case{Input: input, Key: fmt.Sprintf("%d", locked) + text}
 	if herr != "" {
 		cs.Violate("harness:"+herr, herr, input)
@@ -302,7 +309,9 @@ func body(c *explore.Chooser) *explore.Case {
 	// expected result
 	expired := strings.Contains(forms[form], "past")
 	byString := strings.Contains(forms[form], "String()")
-	lockedApplies := locked == 1 && !fileLevel && configReporters[target.reporter]
+	// config 3: the locked copy of every config check keeps reporting the very same problem (identical reports
+	// are folded), so a rule-level comment changes nothing there either
+	lockedApplies := (locked == 1 || locked == 3) && !fileLevel && configReporters[target.reporter]
 	var want []string
 	removed := 0
 	for _, it := range before {
@@ -370,7 +379,7 @@ func diff(want, got []string) (missing, extra []string) {
 func main() {
 	explore.Main(&explore.Config{
 		Property: "C07", Level: "exploration",
-		Rule: "all 1- and 2-rule strict files over a 13-rule palette under a config enabling every configurable offline check kind; for every (rule, reporter) pair in the baseline report x 9 comment forms (disable/snooze by name and by check String(), RFC3339 and date timestamps, future/past, file-level variants) x 6 rule placements / 4 file placements x 5 preludes (none, expired file/snooze or snooze of the same check earlier, file/disable of another check, the comment twice) x {plain, locked, plain + rule{enable=[every check]}} config: the multiset of (rule, reporter, severity, summary, details, diagnostics, line ranges) after must equal before minus exactly the targeted slice, shifted by the inserted lines. Complete product (no deviation bound).",
+		Rule: "all 1- and 2-rule strict files over a 13-rule palette under a config enabling every configurable offline check kind; for every (rule, reporter) pair in the baseline report x 9 comment forms (disable/snooze by name and by check String(), RFC3339 and date timestamps, future/past, file-level variants) x 6 rule placements / 4 file placements x 5 preludes (none, expired file/snooze or snooze of the same check earlier, file/disable of another check, the comment twice) x {plain, locked, plain + rule{enable=[every check]}, unlocked block followed by the same block locked} config: the multiset of (rule, reporter, severity, summary, details, diagnostics, line ranges) after must equal before minus exactly the targeted slice, shifted by the inserted lines. Complete product (no deviation bound).",
 		Assumptions: []string{
 			"snooze timestamps are decades away from now, so the wall clock cannot flip a verdict",
 			"'after the last field' is only generated for the last rule of a file: directly followed by another list item YAML does not define whose comment it is",
